@@ -43,6 +43,8 @@ def run(sid, tier="quick"):
     r = sh(f"git -C /repo apply {d/'patch.diff'} 2>&1")
     applied = sh("git -C /repo status --porcelain --untracked-files=no").stdout.strip() != ""
     out = ""
+    ev = ROOT / "evidence" / f"{prop}.json"
+    ev_saved = ev.read_text() if ev.exists() else None   # committed evidence must come from the unchanged tree
     try:
         if not applied:
             meta["check_result"] = {"applies": False, "detail": r.stdout[-400:]}
@@ -63,6 +65,8 @@ def run(sid, tier="quick"):
                     pass
     finally:
         sh("git -C /repo reset -q; git -C /repo checkout -- .")
+        if ev_saved is not None:
+            ev.write_text(ev_saved)
     (d / "meta.json").write_text(json.dumps(meta, indent=1))
     print(sid, meta["check_result"].get("caught"), meta["check_result"].get("violation_lines"))
     if not meta["check_result"].get("caught"):
